@@ -277,7 +277,19 @@ def build_case(group, base, rnd):
             stmts[a:b] = [apm.repeat(apm.num(rnd.choice([2, 2, 3])), stmts[a:b])]
     for name, v in syms:
         stmts.append(apm.assign(name, apm.num(v)))
-    layout = rnd.choice(["plain", "plain", "link-last", "included", "included-link-last", "shadowed"])
+    layout = rnd.choice(["plain", "plain", "link-last", "included", "included-link-last", "shadowed", "included-twice", "twin"])
+    if layout == "twin" and syms:
+        # a second linked file with the same statements and the same PRIVATE names, which have other values there
+        import copy
+        twin = copy.deepcopy(stmts[1:])
+        mine = {nm for nm, _v in syms}
+        for st in twin:
+            if st.k == "assign" and st.name in mine:
+                st.expr = apm.num((dict(syms)[st.name] ^ 0o400) & 0o177777)
+        prog = apm.Program([apm.SrcFile("main.mac", stmts), apm.SrcFile("twin.mac", twin)])
+        return {"kind": "prog", "layout": layout, "prog": apm.to_json(prog), "base": base, "text": apm.r_file(prog.files[0])}
+    if layout == "twin":
+        layout = "plain"
     if layout == "shadowed" and syms:
         # an earlier linked file exports some of the names this file defines for itself (further down): its own definitions are meant
         picked = rnd.sample(syms, min(len(syms), 6))
@@ -294,8 +306,11 @@ def build_case(group, base, rnd):
             prog = apm.Program([apm.SrcFile("main.mac", body + [link])])
         else:
             pre = [apm.blk(".blkb", apm.num(2 * rnd.randrange(1, 30))), apm.data(".word", apm.num(rnd.randrange(0x10000)))]
-            main = ([link] if layout == "included" else []) + pre + [apm.include("part.mac"), apm.data(".word", apm.num(0o125252))] + \
-                   ([link] if layout != "included" else [])
+            main = ([link] if layout != "included-link-last" else []) + pre + [apm.include("part.mac"), apm.data(".word", apm.num(0o125252))] + \
+                   ([link] if layout == "included-link-last" else [])
+            if layout == "included-twice":
+                # the same file a second time, further on: every inclusion is a compilation of its own, of the same text
+                main += [apm.blk(".blkb", apm.num(2 * rnd.randrange(0, 9))), apm.include("part.mac"), apm.data(".word", apm.num(0o052525))]
             prog = apm.Program([apm.SrcFile("main.mac", main)], aux={"part.mac": apm.SrcFile("part.mac", body)})
         return {"kind": "prog", "layout": layout, "prog": apm.to_json(prog), "base": base, "text": apm.r_file(prog.files[0])}
     f = apm.SrcFile("/c01/main.mac", stmts)
